@@ -74,10 +74,14 @@ func respFrame(id int16, final bool, serial, page int) *frame.Frame {
 	if final && page == 1 {
 		return frame.NewFrame(Ver, id, &message.SetKeyspaceResult{Keyspace: tag})
 	}
-	return frame.NewFrame(Ver, id, &message.RowsResult{
-		Metadata: &message.RowsMetadata{ColumnCount: 1, ContinuousPageNumber: int32(page), LastContinuousPage: final, PagingState: []byte(tag)},
-		Data:     message.RowSet{},
-	})
+	// The tag travels in the only cell of the page. Whether a page is the last one is said by
+	// LastContinuousPage alone: odd pages carry no paging state, even pages carry one, final or not
+	// (a server is free to send either; seeded change C10a-r6 took "no paging state" for "last page").
+	md := &message.RowsMetadata{ColumnCount: 1, ContinuousPageNumber: int32(page), LastContinuousPage: final}
+	if page%2 == 0 {
+		md.PagingState = []byte("ps-" + tag)
+	}
+	return frame.NewFrame(Ver, id, &message.RowsResult{Metadata: md, Data: message.RowSet{{[]byte(tag)}}})
 }
 
 func tagOf(f *frame.Frame) string {
@@ -85,7 +89,9 @@ func tagOf(f *frame.Frame) string {
 	case *message.SetKeyspaceResult:
 		return m.Keyspace
 	case *message.RowsResult:
-		return string(m.Metadata.PagingState)
+		if len(m.Data) == 1 && len(m.Data[0]) == 1 {
+			return string(m.Data[0][0])
+		}
 	}
 	return "?"
 }
